@@ -235,7 +235,8 @@ TraitDel(s, r) ==
   ELSE Done([s EXCEPT !.ctraits = @ \ {r.name}], 204, NoBody)
 
 \* prefix relation on the name pools, tabulated (TLC has no string operators)
-PrefixPool == {"CUSTOM_", "CUSTOM_T", "HW_", "HW_CPU_X86_AVX", "ZZZ"}
+\* ("CUSTOM_T_" is a prefix of no pool name: "_" is an ordinary character, not a wildcard)
+PrefixPool == {"CUSTOM_", "CUSTOM_T", "CUSTOM_T_", "HW_", "HW_CPU_X86_AVX", "ZZZ"}
 HasPrefix(t, pre) ==
   CASE pre \in DOMAIN Vocab.prefixes -> t \in VocabSet(Vocab.prefixes[pre])
     [] pre = "CUSTOM_"  -> t \in CustomTraitPool
